@@ -83,11 +83,22 @@ pub fn main(args: &[String]) -> ! {
     let mut o2 = unsafe { std::fs::File::from_raw_fd(2) };
     let n = plan.len();
     for (seq, (fd, len)) in plan.iter().enumerate() {
+        if *fd == 0 {
+            // a pause (milliseconds), so that commands overlap in time
+            std::thread::sleep(std::time::Duration::from_millis(*len as u64));
+            continue;
+        }
         let r = record(id, *fd, seq, *len, seq + 1 == n);
         let w = if *fd == 2 { &mut o2 } else { &mut o1 };
         let _ = w.write_all(&r);
     }
     let _ = std::fs::write(out, format!("out {}", id));
+    let end_ns = {
+        let mut ts = libc::timespec { tv_sec: 0, tv_nsec: 0 };
+        unsafe { libc::clock_gettime(libc::CLOCK_MONOTONIC, &mut ts) };
+        ts.tv_sec as u64 * 1_000_000_000 + ts.tv_nsec as u64
+    };
+    let _ = std::fs::write(format!("{}/{}.end", logdir, id), end_ns.to_string());
     let mut _unused = String::new();
     let _ = std::io::stdin().read_to_string(&mut _unused);
     std::mem::forget(o1);
